@@ -3,6 +3,13 @@
 Engine A over flat inputs.  Families:
 
   ipow          integer_power on ints, Fractions, 2x2 integer matrices, free-monoid words
+  ipow-huge     exponents beyond 2**53 in finite monoids (residues mod p, 1j, finite-order
+                matrices, a permutation)
+  ipow-mutable  mutable elements with __imul__ (own matrix class, numpy.matrix, numpy.ndarray):
+                arguments left alone, second call on the same object agrees
+  fft-history   every sequence of two (thorough: also three) fft calls over {complex64,
+                complex128, python list, int input} x {sign +1,-1} at one length, from freshly
+                initialised module state: results must not depend on earlier calls
   euclid-int    extended_euclidean / gcd / lcm (algorithm and IntegerTraits) on an integer box
   euclid-poly   extended_euclidean on all pairs of small polynomials (Z, Q and field-unit variants)
   fft           fft / ifft / sym_fft for every length on every unit vector + two dense vectors
@@ -28,7 +35,8 @@ import math
 from fractions import Fraction
 
 from vf import c19_ref as ref
-from vf.c19_ref import BudgetExceeded, QPoly, Word, dec, dec_terms, enc, enc_terms, show_terms
+from vf.c19_ref import (
+    BudgetExceeded, ModP, MutMat, Perm, QPoly, Word, dec, dec_terms, enc, enc_terms, show_terms)
 from vf.envs import Mat
 from vf.run import Check, Res
 
@@ -42,6 +50,14 @@ IPOW_MATS = ((1, 1, 0, 1), (0, 1, 0, 0), (1, 1, 1, 0), (2, -1, 3, 0), (0, 1, -1,
 IPOW_WORDS = ("a", "ab", "aba")
 IPOW_MAX_N = {"quick": 16, "thorough": 64}
 IPOW_NEGATIVE_N = (-1, -2, -3)
+# huge exponents, in finite monoids where the power stays computable and distinguishable
+IPOW_HUGE_N = (*[2**53 + k for k in range(-2, 10)], 2**54 + 3, 2**54 + 5, 2**62 + 2**8 + 1,
+               2**64 + 1, 2**100 + 2**50 + 1, 10**30 + 7)
+IPOW_HUGE_ELEMS = (("P", 2, 1000003), ("P", 3, 1000003), ("P", 5, 97), ("P", 10, 2**61 - 1),
+                   ("J",), ("M", 0, 1, -1, 0), ("M", 0, -1, 1, 1),
+                   ("S", 1, 2, 0, 4, 5, 6, 3, 8, 9, 10, 11, 7))      # cycles 3,4,5: order 60
+IPOW_MUTABLE_KINDS = ("mutmat", "npmatrix", "ndarray")
+IPOW_MUTABLE_MAX_N = {"quick": 12, "thorough": 40}
 
 EUCLID_INT_BOX = {"quick": 30, "thorough": 200}
 EUCLID_POLY_DEG = 2
@@ -51,6 +67,14 @@ CALL_BUDGET = 4000           # Python-level calls after which a Euclid/divmod ru
 
 FFT_MAX_LEN = {"quick": 16, "thorough": 64}
 FFT_TOL = 1e-9               # relative to max(1, ||x||_1); inputs are small (Gaussian) integers
+FFT_TOL_SINGLE = 1e-5        # the same for complex64 transforms
+# call histories in one process: every sequence of FFT_HIST_LEN calls over the alphabet
+# {complex64, complex128, python list, int input} x {sign +1, -1} at one length
+FFT_HIST_KINDS = ("c64", "c128", "list", "int")
+FFT_HIST_LENGTHS = {"quick": (2, 3, 4, 6, 8, 12, 16),
+                    "thorough": (2, 3, 4, 5, 6, 7, 8, 9, 10, 12, 15, 16, 17, 30, 64)}
+FFT_HIST_LEN = 2
+FFT_HIST3_LENGTHS = {"quick": (), "thorough": (4, 6, 12)}     # all sequences of three calls
 
 SORTUNIQ_MAX_LEN = {"quick": 4, "thorough": 5}
 SORTUNIQ_EXPS = (0, 1, 2)
@@ -615,6 +639,114 @@ def probe_ipow(xe, n, onemode):
     return []
 
 
+def dec_finite(xe):
+    t = xe[0]
+    if t == "P":
+        return ModP(xe[1], xe[2])
+    if t == "J":
+        return 1j
+    if t == "M":
+        return Mat(*xe[1:])
+    assert t == "S"
+    return Perm(xe[1:])
+
+
+def finite_identity(x):
+    if isinstance(x, ModP):
+        return ModP(1, x.p)
+    if isinstance(x, Perm):
+        return Perm(range(len(x.t)))
+    if isinstance(x, Mat):
+        return Mat(1, 0, 0, 1)
+    return complex(1)
+
+
+def probe_ipow_huge(xe, n, onemode):
+    """integer_power with an exponent far beyond 2**53 in a finite monoid.  Oracle: pow(v, n, p)
+    for residues; otherwise x**(n mod order) by repeated multiplication."""
+    from pymbolic.algorithm import integer_power
+    _tick()
+    x = dec_finite(xe)
+    ident = finite_identity(x)
+    kw = {} if onemode == "default" else {"one": ident}
+    try:
+        got = integer_power(x, n, **kw)
+    except Exception as e:  # noqa: BLE001
+        return [("raises:" + excname(e), repr(e))]
+    if isinstance(x, ModP):
+        expected = ModP(pow(x.v, n, x.p), x.p)
+    else:
+        order, acc = 1, x
+        while not (acc == ident):
+            acc = acc * x
+            order += 1
+            assert order < 1000
+        e = n % order or order
+        expected = kw.get("one", 1)
+        for _ in range(e):
+            expected = expected * x
+    if type(got) is not type(expected) or not (got == expected):
+        return [("wrong", f"expected {expected!r} got {got!r}")]
+    return []
+
+
+def _mutable_elem(kind):
+    """-> (element, copy function, equality, fresh identity function)"""
+    import numpy as np
+    if kind == "mutmat":
+        return (MutMat([[1, 1], [1, 0]]), lambda m: m.copy(), lambda a, b: a == b,
+                lambda: MutMat([[1, 0], [0, 1]]))
+    if kind == "npmatrix":
+        return (np.matrix([[2, 1], [1, 1]], dtype=object), lambda m: m.copy(),
+                lambda a, b: type(a) is type(b) and a.shape == b.shape and bool((a == b).all()),
+                lambda: np.matrix([[1, 0], [0, 1]], dtype=object))
+    assert kind == "ndarray"
+    return (np.array([2, -3, 5], dtype=object), lambda m: m.copy(),
+            lambda a, b: type(a) is type(b) and a.shape == b.shape and bool((a == b).all()),
+            lambda: np.array([1, 1, 1], dtype=object))
+
+
+def probe_ipow_mutable(kind, n, onemode):
+    """integer_power on a MUTABLE element that implements __imul__: the caller's objects must be
+    left alone and a second call on the same object must give the same result."""
+    from pymbolic.algorithm import integer_power
+    _tick(2)
+    x, copy, eq, fresh_one = _mutable_elem(kind)
+    orig = copy(x)
+    expected = 1 if onemode == "default" else fresh_one()
+    for _ in range(n):
+        expected = expected * orig
+    fails = []
+    one = fresh_one()
+    results = []
+    for call in (1, 2):
+        kw = {}
+        if onemode == "explicit":
+            kw = {"one": fresh_one()}
+        elif onemode == "one-reused":
+            kw = {"one": one}
+        try:
+            results.append(integer_power(x, n, **kw))
+        except Exception as e:  # noqa: BLE001
+            return [("raises:" + excname(e), f"call {call}: {e!r}")]
+        if not eq(x, orig):
+            return [("argument-modified", f"after call {call}: x is {x!r}, was {orig!r}")]
+        if onemode == "one-reused" and not eq(one, fresh_one()):
+            fails.append(("one-modified", f"after call {call} with n={n} the caller's neutral "
+                          f"element is {one!r}"))
+            break
+    if not fails:
+        for call, got in enumerate(results, 1):
+            ok = (got == expected) if isinstance(expected, int) and isinstance(got, int) \
+                else (not isinstance(got, int) and not isinstance(expected, int)
+                      and eq(got, expected))
+            if not ok:
+                fails.append(("wrong" if call == 1 else "second-call-differs",
+                              f"call {call}: expected {expected!r} got {got!r}"))
+                break
+    return fails
+
+
 # -- FFT -------------------------------------------------------------------------------------
 
 def fft_vector(n, vid):
@@ -698,6 +830,69 @@ def probe_fft(n, vid):
     return fails
 
 
+def _hist_vector(n, kind):
+    if kind == "int":
+        return [((j * j + 3 * j + 1) % 7) - 3 for j in range(n)]
+    return [complex(((3 * j + 1) % 5) - 2, ((j * j) % 4) - 1) for j in range(n)]
+
+
+def _hist_call(algorithm, n, call):
+    """One transform of the history; -> (result as list of complex, expected, tolerance)."""
+    import numpy as np
+    kind, sign = call
+    x = _hist_vector(n, kind)
+    tol = max(1.0, sum(abs(v) for v in x))
+    if kind == "c64":
+        got = algorithm.fft(np.array(x, dtype=np.complex64), sign=sign,
+                            complex_dtype=np.complex64)
+        tol *= FFT_TOL_SINGLE
+    elif kind == "c128":
+        got = algorithm.fft(np.array(x, dtype=np.complex128), sign=sign,
+                            complex_dtype=np.complex128)
+        tol *= FFT_TOL
+    elif kind == "list":
+        got = algorithm.fft(list(x), sign=sign, complex_dtype=np.complex128)
+        tol *= FFT_TOL
+    else:
+        got = algorithm.fft(np.array(x), sign=sign)
+        tol *= FFT_TOL
+    return [complex(v) for v in got], ref.dft(x, sign), tol
+
+
+def probe_fft_history(n, *calls):
+    """A sequence of transforms of one length in ONE process, starting from freshly initialised
+    module state (pymbolic.algorithm re-imported, so every module-level memo table is empty):
+    every call must equal the DFT, and the last call must return bit for bit what the same call
+    returns when it is the first one."""
+    import importlib
+
+    import pymbolic.algorithm as algorithm
+    calls = [tuple(c) for c in calls]
+    algorithm = importlib.reload(algorithm)
+    _tick()
+    try:
+        alone, _, _ = _hist_call(algorithm, n, calls[-1])
+    except Exception as e:  # noqa: BLE001
+        return [("raises:" + excname(e), f"{calls[-1]} alone: {e!r}")]
+    algorithm = importlib.reload(algorithm)
+    got = None
+    for i, call in enumerate(calls):
+        _tick()
+        try:
+            got, expected, tol = _hist_call(algorithm, n, call)
+        except Exception as e:  # noqa: BLE001
+            return [("raises:" + excname(e), f"call {i} {call}: {e!r}")]
+        d = _close(got, expected, tol)
+        if d:
+            return [("wrong-after-history" if i else "wrong",
+                     f"call {i} {call} after {calls[:i]}: {d}")]
+    if got != alone:
+        k = next(i for i, (a, b) in enumerate(zip(got, alone)) if a != b)
+        return [("history-dependent", f"{calls[-1]} after {calls[:-1]} differs from the same "
+                 f"call made first: component {k}: {got[k]!r} vs {alone[k]!r}")]
+    return []
+
+
 # -- quotient node and Rational ---------------------------------------------------------------
 
 def probe_quot(p, q):
@@ -765,7 +960,7 @@ def probe_ratop(op, p1, q1, p2, q2):
 def _is_label(name, kind):
     return (kind.startswith("unsupported-division:") or kind.startswith("unhashable")
             or kind == "diverges" or kind.startswith("wrong-big:")
-            or name in ("fft", "ratop"))
+            or kind == "one-modified" or name in ("fft", "ratop", "fft-history"))
 
 
 PROBES = {
@@ -781,13 +976,16 @@ PROBES = {
     "euclid-poly": (probe_euclid_poly, ("fixed", "poly", "poly")),
     "field-divmod": (probe_field_divmod, ("fixed", "poly", "poly")),
     "ipow": (probe_ipow, ("fixed", "scalar", "fixed")),
+    "ipow-huge": (probe_ipow_huge, ("fixed", "fixed", "fixed")),
+    "ipow-mutable": (probe_ipow_mutable, ("fixed", "scalar", "fixed")),
+    "fft-history": (probe_fft_history, ("fixed",) * (1 + 3)),
     "fft": (probe_fft, ("fixed", "fixed")),
     "quot": (probe_quot, ("scalar", "scalar")),
     "ratop": (probe_ratop, ("fixed", "fixed", "fixed", "fixed", "fixed")),
 }
 # label-only: which fixed arguments go into the signature
 LABEL_ARGS = {"euclid-poly": (0,), "field-divmod": (0,), "eval": (0,), "quot": (), "divmod": (0,),
-              "fft": (0,), "ratop": (0,)}
+              "fft": (0,), "ratop": (0,), "fft-history": (0,), "ipow-mutable": (0,)}
 
 
 def _decode(name, args):
@@ -899,7 +1097,11 @@ class C19(Check):
     level = "exploration"
     rule = ("bounded-exhaustive over flat inputs: integer_power for every element of four monoids "
             "(ints, Fractions, 2x2 integer matrices, free-monoid words) x every n up to the bound x "
-            "default/explicit neutral element, and every negative n in [-3,-1]; Euclid/gcd/lcm on "
+            "default/explicit neutral element, and every negative n in [-3,-1]; 18 exponents between "
+            "2**53-2 and 10**30+7 on 8 elements of finite monoids; three mutable element types x "
+            "every n up to the bound x default/fresh/reused neutral element, each called twice; "
+            "every sequence of 2 (thorough: also 3) fft calls over 4 input kinds x 2 signs at each "
+            "history length, each from re-initialised module state; Euclid/gcd/lcm on "
             "the full integer box and on every ordered pair of polynomials of degree <= 2 over "
             "{-1,0,1,2}; fft/ifft/sym_fft for EVERY length up to the bound on every unit vector "
             "(the transform is linear) and two dense vectors, both signs; the like-term merge on "
@@ -933,6 +1135,13 @@ class C19(Check):
         "FFT comparisons (only place with a tolerance): |got - DFT| <= 1e-9 * max(1, ||x||_1) per "
         "component on (Gaussian-)integer input; the symbolic FFT is evaluated with pymbolic's plain "
         "EvaluationMapper",
+        "huge exponents: expected value is pow(v, n, p) for residues and x**(n mod order) by "
+        "repeated multiplication otherwise; mutable elements: x must compare equal to its copy "
+        "after every call and both calls must return the fold computed from the copy",
+        "an fft history starts from importlib.reload(pymbolic.algorithm), i.e. with every "
+        "module-level memo table of that module empty (stands for a fresh process); the last call "
+        "must return bit for bit what the same call returns as the first call after a reload; "
+        "complex64 transforms are compared with the DFT at 1e-5, all others at 1e-9",
         "non-termination is detected deterministically by a budget of 4000 Python-level calls "
         "(terminating runs inside the bounds need <= 308)",
         "quotient(p, q) must evaluate to Fraction(p, q) exactly or to the float p / q; the family "
@@ -946,6 +1155,9 @@ class C19(Check):
     def families(self, tier):
         return [
             ("ipow", lambda: self.gen_ipow(tier)),
+            ("ipow-huge", self.gen_ipow_huge),
+            ("ipow-mutable", lambda: self.gen_ipow_mutable(tier)),
+            ("fft-history", lambda: self.gen_fft_history(tier)),
             ("euclid-int", lambda: self.gen_euclid_int(tier)),
             ("euclid-poly", self.gen_euclid_poly),
             ("fft", lambda: self.gen_fft(tier)),
@@ -977,6 +1189,27 @@ class C19(Check):
             for a in polys:
                 for b in polys:
                     yield ("probe", "euclid-poly", variant, enc_terms(a), enc_terms(b))
+
+    def gen_ipow_huge(self):
+        for x in IPOW_HUGE_ELEMS:
+            for onemode in ("default", "explicit"):
+                for n in IPOW_HUGE_N:
+                    yield ("probe", "ipow-huge", x, n, onemode)
+
+    def gen_ipow_mutable(self, tier):
+        for kind in IPOW_MUTABLE_KINDS:
+            for onemode in ("default", "explicit", "one-reused"):
+                for n in range(IPOW_MUTABLE_MAX_N[tier] + 1):
+                    yield ("probe", "ipow-mutable", kind, n, onemode)
+
+    def gen_fft_history(self, tier):
+        alphabet = [(k, s) for k in FFT_HIST_KINDS for s in (1, -1)]
+        for n in FFT_HIST_LENGTHS[tier]:
+            for seq in itertools.product(alphabet, repeat=FFT_HIST_LEN):
+                yield ("probe", "fft-history", n, *seq)
+        for n in FFT_HIST3_LENGTHS[tier]:
+            for seq in itertools.product(alphabet, repeat=3):
+                yield ("probe", "fft-history", n, *seq)
 
     def gen_fft(self, tier):
         for n in range(1, FFT_MAX_LEN[tier] + 1):
